@@ -122,6 +122,10 @@ STORAGE_READS = {"read_file", "open_file", "open_seekable", "read_json", "exists
                  "get_modified_time", "read_file_with_etag"}
 STORAGE_WRITES = {"write_file", "write_json", "write_file_cas"}
 LOCK_API = {"acquire", "release", "is_held"}
+# storage-API method names that no other class of the package or of the standard library defines: a call of one of them on a
+# receiver whose type cannot be resolved is still counted as a storage operation (duck typing)
+DUCK_STORAGE_API = {"read_file", "write_file", "read_json", "write_json", "list_files", "delete_file", "get_modified_time",
+                    "read_file_with_etag", "write_file_cas", "open_seekable"}
 
 
 class Effects:
@@ -281,6 +285,8 @@ class Effects:
     def storage_op(self, n: Node) -> Optional[str]:
         """Name of the StorageBackend API method a call node invokes, else None."""
         c = n.callee
+        if c is not None and c.kind == "prim" and c.name.startswith("method.") and c.name[7:] in DUCK_STORAGE_API:
+            return c.name[7:]  # receiver of unknown type (`storage: Any`): the method name is specific to the storage API
         if c is None or c.kind != "func" or not c.funcs:
             return None
         f0 = c.funcs[0]
